@@ -410,6 +410,10 @@ pub fn write_replay_file(
     j.set("class", J::s(&v.class));
     j.set("detail", J::s(&vv.detail));
     j.set("verif_seed", J::u(verif_seed));
+    if let Ok(b) = std::env::var("CRRL_SIM_BUILD") {
+        // found under a build other than the default one: `./check --replay` must use the same build
+        j.set("builds", J::Arr(vec![J::s(&b)]));
+    }
     j.set("run_index", J::u(run));
     j.set("original_tape_len", J::u(original_len as u64));
     j.set("shrink_executions", J::u(shrink_execs));
